@@ -12,11 +12,17 @@ property itself):
                     `panic_sites_classified`: every potential panic site extracted from the primitives is in the
                     hand-reviewed table (LemmasSites.lean); `reachable_sites_named`: every site judged reachable names
                     its finding class.
-  (c) recovery      `failed_run_leaves_clean` (the full statement `FailedRunLeavesClean`), `handler_run_resumes_clean`,
-                    `run_never_panics`, `failed_forms_keep_completed`, `history_stays_clean`: the model of
-                    `SteelThread::execute`.  Until /repo commit f4f0e66b the full statement was refuted for the model by a
-                    handler that is not a closure (finding K07a, found here, replayed on the engine, repaired); the
-                    witness stays as `regression_bad_handler`.
+  (c) recovery      `failed_run_leaves_clean_partial`, `handler_run_resumes_clean_partial`, `run_never_panics`,
+                    `failed_forms_keep_completed`, `history_stays_clean`: the model of `SteelThread::execute`, including
+                    the call paths that push a frame before it is counted (`callbackArity`).  Guard of the partial
+                    theorems: at most one callback arity error per evaluation / program / history (ghost counter `lost`).
+                    The full statements `FailedRunLeavesClean` / `HandledRunLeavesClean` are refuted by witnesses that
+                    are replayed on the engine (`not_FailedRunLeavesClean`, `not_HandledRunLeavesClean`,
+                    `counter_*`: finding K07ai, found by this extension of the model).  `gen_unwind_order_both`,
+                    `gen_counted_paths`, `gen_uncounted_paths_as_modelled`: what translate/c07_unwind.py reads from vm.rs.
+                    Until /repo commit f4f0e66b the full statement was refuted by a handler that is not a closure
+                    (finding K07a, found here, replayed on the engine, repaired); the witness stays as
+                    `regression_bad_handler`.
                     `failed_build_is_noop_partial`, `not_FailedBuildIsNoop` (macros of a failed program stay defined).
 -/
 import SteelVerif.C12.Props
@@ -31,7 +37,7 @@ namespace SteelVerif.C07
 theorem frontend_total (src : C12.Text) :
     (∃ ds, C12.read src = .ok ds) ∨
     (∃ e, C12.read src = .error e ∧ e.s ≤ e.e ∧ e.e ≤ C12.utf8Len src) :=
-  C12.read_total src
+  C12.read_total_partial src
 
 /-- every token and lexer error of every text has `start ≤ end ≤ length` -/
 theorem frontend_spans (src : C12.Text) : ∀ it ∈ C12.lex src, it.s ≤ it.e ∧ it.e ≤ C12.utf8Len src :=
@@ -65,6 +71,21 @@ example : (reviewed.filter (fun r => r.verdict == .reachable)).length ≠ 0 := b
 
 /-! ## (c) recovery -/
 
+/-- what ties the recovery model to the source, regenerated on every run (translate/c07_unwind.py): the order of the
+`pop_count == 0` test and the decrement in both unwind loops, and the `stack.clear()` after the outer one -/
+theorem gen_unwind_order_both : Gen.unwindTestFirst = true ∧ Gen.nestedTestFirst = true ∧ Gen.unwindClears = true := by decide
+
+/-- every call path that counts its frame does so right after the push, with nothing fallible in between
+(`handle_function_call_closure*` since /repo commit 968df9dd, `call_with_exception_handler`, `call/cc`): the model's
+`call` / `handle` / `callcc` move `frames` and `popCount` in one step -/
+theorem gen_counted_paths : Gen.countedPaths.all (fun p => !p.2) = true ∧ Gen.countedPaths.length ≠ 0 := by decide
+
+/-- the call paths that leave the counting to a nested instance are as modelled by `callbackArity`: either a fallible
+step follows the push and the frame is NOT taken back (finding K07ai), or nothing can fail between push and nested run.
+A path that is fallible after the push in some other way breaks this obligation. -/
+theorem gen_uncounted_paths_as_modelled :
+    Gen.uncountedPaths.all (fun p => (p.2.1 && !p.2.2) || (!p.2.1)) = true ∧ Gen.uncountedPaths.length ≠ 0 := by decide
+
 /-- C07, as stated for one evaluation on a clean thread: whenever the evaluation returns an error, the operand stack
 and the frame stack are empty, the definitions executed before the failure are kept, and nothing else of the thread
 that the model tracks has changed (the globals only grew). -/
@@ -73,35 +94,51 @@ def FailedRunLeavesClean : Prop :=
     t.clean → execute fuel code t = (o, t') → o.isErr = true →
     t'.stack = [] ∧ t'.frames = [] ∧ t.globals <+: t'.globals
 
-/-- the full statement holds for the code that exists (since /repo commit f4f0e66b) -/
-theorem failed_run_leaves_clean : FailedRunLeavesClean := by
-  intro fuel code t t' o hc h ho
+/-- the same for an evaluation that succeeds, possibly after errors were caught by handlers -/
+def HandledRunLeavesClean : Prop :=
+  ∀ (fuel : Nat) (code : List Code) (t t' : Thread) (v : Val),
+    t.clean → execute fuel code t = (.ok v, t') → t'.stack = [] ∧ t'.frames = [] ∧ t.globals <+: t'.globals
+
+/-- the part that holds for the code that exists: evaluations in which at most ONE callback arity error was raised
+(`lost` counts them), handled or not.  The guard is decidable on the run; `t'.lost = t.lost` (no such error) implies it.
+This is the theorem that needs the `pop_count == 0` test to precede the decrement: with one uncounted frame the counter
+reaches 0 exactly when the last frame is popped. -/
+theorem failed_run_leaves_clean_partial (fuel : Nat) (code : List Code) (t t' : Thread) (e : Val)
+    (hc : t.clean) (h : execute fuel code t = (.error e, t')) (hg : t'.lost ≤ t.lost + 1) :
+    t'.stack = [] ∧ t'.frames = [] ∧ t.globals <+: t'.globals := by
   unfold execute at h
   have r := executeLoop_spec (inv_of_clean_entry t hc) h
+  have c := r.2.2.2 (Or.inr ⟨e, rfl⟩) (by simpa using hg)
+  exact ⟨c.1, c.2, by simpa using r.2.1⟩
+
+/-- an evaluation that succeeds ends with both stacks empty, under the same guard -/
+theorem handler_run_resumes_clean_partial (fuel : Nat) (code : List Code) (t t' : Thread) (v : Val)
+    (hc : t.clean) (h : execute fuel code t = (.ok v, t')) (hg : t'.lost ≤ t.lost + 1) :
+    t'.stack = [] ∧ t'.frames = [] ∧ t.globals <+: t'.globals := by
+  unfold execute at h
+  have r := executeLoop_spec (inv_of_clean_entry t hc) h
+  have c := r.2.2.2 (Or.inl ⟨v, rfl⟩) (by simpa using hg)
+  exact ⟨c.1, c.2, by simpa using r.2.1⟩
+
+/-- the FULL statement, for the code since /repo commit 27b7e09f (no call path leaves an uncounted frame behind:
+`windowOpen = false`, read from vm.rs on every run) -/
+theorem failed_run_leaves_clean (hw : windowOpen = false) : FailedRunLeavesClean := by
+  intro fuel code t t' o hc h ho
   cases o with
   | error e =>
-    have c := r.2.2 (Or.inr ⟨e, rfl⟩)
-    exact ⟨c.1, c.2, by simpa using r.2.1⟩
+    have hl : t'.lost = t.lost := by simpa [h] using execute_lost_eq hw fuel code t
+    exact failed_run_leaves_clean_partial fuel code t t' e hc h (by omega)
   | ok v => cases ho
   | panic => cases ho
   | outOfFuel => cases ho
 
-theorem failed_run_leaves_clean_partial (fuel : Nat) (code : List Code) (t t' : Thread) (e : Val)
-    (hc : t.clean) (h : execute fuel code t = (.error e, t')) :
-    t'.stack = [] ∧ t'.frames = [] ∧ t.globals <+: t'.globals :=
-  failed_run_leaves_clean fuel code t t' (.error e) hc h rfl
+theorem handled_run_leaves_clean (hw : windowOpen = false) : HandledRunLeavesClean := by
+  intro fuel code t t' v hc h
+  have hl : t'.lost = t.lost := by simpa [h] using execute_lost_eq hw fuel code t
+  exact handler_run_resumes_clean_partial fuel code t t' v hc h (by omega)
 
-/-- an evaluation that succeeds — possibly after errors were caught by handlers — ends with both stacks empty -/
-theorem handler_run_resumes_clean (fuel : Nat) (code : List Code) (t t' : Thread) (v : Val)
-    (hc : t.clean) (h : execute fuel code t = (.ok v, t')) :
-    t'.stack = [] ∧ t'.frames = [] ∧ t.globals <+: t'.globals := by
-  unfold execute at h
-  have r := executeLoop_spec (inv_of_clean_entry t hc) h
-  have c := r.2.2 (Or.inl ⟨v, rfl⟩)
-  exact ⟨c.1, c.2, by simpa using r.2.1⟩
-
-/-- the recovery machine itself never panics: `last.unwrap()` in `handle_pop_pure` and the `pop_count` arithmetic
-are safe on every run from a clean thread (the early `return Err(e)` of the unwind loop is dead code) -/
+/-- the recovery machine itself never panics — with any number of uncounted frames: `last.unwrap()` in
+`handle_pop_pure` and the `pop_count` arithmetic are safe on every run from a clean thread -/
 theorem run_never_panics (fuel : Nat) (code : List Code) (t t' : Thread) (o : Outcome)
     (hc : t.clean) (h : execute fuel code t = (o, t')) : o ≠ .panic := by
   unfold execute at h
@@ -114,18 +151,18 @@ def Outcome.benign : Outcome → Bool
   | _ => false
 
 theorem execute_clean (fuel : Nat) (code : List Code) (t t' : Thread) (o : Outcome)
-    (hc : t.clean) (h : execute fuel code t = (o, t')) (hb : o.benign = true) :
+    (hc : t.clean) (h : execute fuel code t = (o, t')) (hb : o.benign = true) (hg : t'.lost ≤ t.lost + 1) :
     t'.clean ∧ t.globals <+: t'.globals := by
   cases o with
-  | ok v => have r := handler_run_resumes_clean fuel code t t' v hc h; exact ⟨⟨r.1, r.2.1⟩, r.2.2⟩
-  | error e => have r := failed_run_leaves_clean_partial fuel code t t' e hc h; exact ⟨⟨r.1, r.2.1⟩, r.2.2⟩
+  | ok v => have r := handler_run_resumes_clean_partial fuel code t t' v hc h hg; exact ⟨⟨r.1, r.2.1⟩, r.2.2⟩
+  | error e => have r := failed_run_leaves_clean_partial fuel code t t' e hc h hg; exact ⟨⟨r.1, r.2.1⟩, r.2.2⟩
   | panic => cases hb
   | outOfFuel => cases hb
 
 /-- a program (`run_executable`): if it fails, the forms before the failing one completed, their definitions are
-kept, and both stacks are empty -/
+kept, and both stacks are empty (guard: at most one callback arity error in the whole program) -/
 theorem failed_forms_keep_completed (fuel : Nat) (forms : List (List Code)) (t t' : Thread) (o : Outcome)
-    (hc : t.clean) (h : runForms fuel forms t = (o, t')) (hb : o.benign = true) :
+    (hc : t.clean) (h : runForms fuel forms t = (o, t')) (hb : o.benign = true) (hg : t'.lost ≤ t.lost + 1) :
     t'.clean ∧ t.globals <+: t'.globals := by
   induction forms generalizing t with
   | nil =>
@@ -136,21 +173,23 @@ theorem failed_forms_keep_completed (fuel : Nat) (forms : List (List Code)) (t t
     unfold runForms at h
     split at h
     · rename_i v t1 he
-      have r := execute_clean fuel f t t1 (.ok v) hc he rfl
-      have rr := ih (t := t1) r.1 h
+      have m1 : t.lost ≤ t1.lost := by simpa [he] using execute_lost fuel f t
+      have m2 : t1.lost ≤ t'.lost := by simpa [h] using runForms_lost fuel rest t1
+      have r := execute_clean fuel f t t1 (.ok v) hc he rfl (by omega)
+      have rr := ih (t := t1) r.1 h (by omega)
       exact ⟨rr.1, List.IsPrefix.trans r.2 rr.2⟩
     · rename_i r hne
       cases hr : execute fuel f t with
       | mk o1 t1 =>
         rw [hr] at h
         cases h
-        exact execute_clean fuel f t t' o hc hr hb
+        exact execute_clean fuel f t t' o hc hr hb hg
 
 /-- a whole history of evaluations on one engine, failing and succeeding ones interleaved: as long as no evaluation
-ends in the bad-handler error (or runs out of fuel), the thread is clean after the history and every definition that
-was executed is still there -/
+runs out of fuel and at most one callback arity error is raised in the whole history, the thread is clean after the
+history and every definition that was executed is still there -/
 theorem history_stays_clean (fuel : Nat) (hist : List (List (List Code))) (t t' : Thread) (os : List Outcome)
-    (hc : t.clean) (h : runHistory fuel hist t = (os, t')) (hb : os.all Outcome.benign = true) :
+    (hc : t.clean) (h : runHistory fuel hist t = (os, t')) (hb : os.all Outcome.benign = true) (hg : t'.lost ≤ t.lost + 1) :
     t'.clean ∧ t.globals <+: t'.globals := by
   induction hist generalizing t os with
   | nil =>
@@ -167,8 +206,10 @@ theorem history_stays_clean (fuel : Nat) (hist : List (List (List Code))) (t t' 
         simp only [hr] at h
         cases h
         simp only [List.all_cons, Bool.and_eq_true] at hb
-        have r1 := failed_forms_keep_completed fuel p t t1 o1 hc hp hb.1
-        have r2 := ih (t := t1) (os := os1) r1.1 hr hb.2
+        have m1 : t.lost ≤ t1.lost := by simpa [hp] using runForms_lost fuel p t
+        have m2 : t1.lost ≤ t'.lost := by simpa [hr] using runHistory_lost fuel rest t1
+        have r1 := failed_forms_keep_completed fuel p t t1 o1 hc hp hb.1 (by omega)
+        have r2 := ih (t := t1) (os := os1) r1.1 hr hb.2 (by omega)
         exact ⟨r2.1, List.IsPrefix.trans r1.2 r2.2⟩
 
 /-! ### non-vacuity of the recovery theorems -/
@@ -189,6 +230,52 @@ example : (execute 100 progHandled {}).1 = .error 4 := by decide
 example : (execute 100 progHandled {}).2.globals = [(1, 5)] := by decide
 example : (execute 100 [.handle true [.pop, .push 5] [.push 1, .fail 3], .define 1] {}).1 = .ok 0 := by decide
 
+/-- ONE callback arity error that reaches the top (`(transduce (list 1 2) (filtering (lambda (x y) #t)) (into-list))`
+two calls deep): the guard holds, the thread is clean.  (With the decrement before the test — seeded change C07-n2 —
+this very run leaves its operands behind: `unwind_fail` does not check then.) -/
+def progCallbackArity : List Code := [.push 7, .call [.push 8, .call [.push 9, .callbackArity]]]
+
+example : (execute 100 progCallbackArity {}).1 = .error arityError := by decide
+example : ((execute 100 progCallbackArity {}).2.stack, (execute 100 progCallbackArity {}).2.frames.length) = ([], 0) := by decide
+
+/-! ### with the window open (the code before /repo commit 27b7e09f) the full statements were refuted: finding K07ai.
+The witnesses are kept for that configuration (`windowOpen = true →`); they are vacuous for the repaired code. -/
+
+/-- `(define (hf) (+ 0 (call-with-exception-handler (lambda (e) 100) (lambda () <callback arity error>))))` -/
+def hfCall : Code := .call [.push 0, .handle true [.pop, .push 100] [.callbackArity], .pop, .pop, .push 0]
+
+/-- a handled callback arity error ends the enclosing evaluation one return early: the `define` after the call is
+never executed, although the evaluation "succeeds" -/
+theorem counter_handled_callback_arity_error_ends_early : windowOpen = true →
+    (execute 100 [hfCall, .define 1] {}).1 = .ok 0 ∧ (execute 100 [hfCall, .define 1] {}).2.globals = [] ∧
+    (execute 100 [.call [.push 0, .handle true [.pop, .push 100] [.push 3], .pop, .pop, .push 0], .define 1] {}).2.globals = [(1, 0)] := by
+  decide
+
+/-- `(list 0 (hg) 3)` with `(define (hg) (list 1 (hf) (hf) 2))` — the shape the check evaluates on the engine: the
+evaluation ends inside `hg` and the frame of `hg` stays on the frame stack (the engine: value 100, depth (1 0)) -/
+def progTwoHandled : List Code :=
+  [.push 0, .call [.push 1, hfCall, hfCall, .push 2, .pop, .pop, .pop, .pop, .push 0], .push 3, .pop, .pop, .pop, .push 0]
+
+theorem counter_two_handled_leave_a_frame : windowOpen = true →
+    (execute 200 progTwoHandled {}).1 = .ok 0 ∧ (execute 200 progTwoHandled {}).2.frames.length = 1 ∧
+    (execute 200 progTwoHandled {}).2.lost = 2 := by decide
+
+/-- `(list 0 (hm) 3)`, `(define (hm) (list 7 8 (hk)))`, `(define (hk) (list 1 (hf) (hf) (car 5)))`: after two handled
+callback arity errors an unhandled error leaves `execute` through the `pop_count == 0` early return, which does not
+clear the operand stack (the engine: depth (0 7)) -/
+def progTwoHandledThenFail : List Code :=
+  [.push 0, .call [.push 7, .push 8, .call [.push 1, hfCall, hfCall, .fail 9]]]
+
+theorem counter_two_handled_then_error_leaves_operands : windowOpen = true →
+    (execute 200 progTwoHandledThenFail {}).1 = .error 9 ∧ (execute 200 progTwoHandledThenFail {}).2.frames.length = 0 ∧
+    (execute 200 progTwoHandledThenFail {}).2.stack.length ≠ 0 := by decide
+
+/-- the same three programs on the repaired code: every form is executed, nothing stays behind -/
+theorem regression_handled_callback_arity_errors : windowOpen = false →
+    (execute 100 [hfCall, .define 1] {}).2.globals = [(1, 0)] ∧
+    (execute 200 progTwoHandled {}).2.frames.length = 0 ∧
+    (execute 200 progTwoHandledThenFail {}).1 = .error 9 ∧ (execute 200 progTwoHandledThenFail {}).2.stack = [] := by decide
+
 /-! ### regression: the witness that refuted the full statement before /repo commit f4f0e66b -/
 
 /-- `(list 1 (call-with-exception-handler list (lambda () (error "x"))))`: the handler is a built-in, not a closure.
@@ -203,9 +290,9 @@ theorem regression_bad_handler :
 
 /-- a frame that carries a non-closure handler all the same (installed by other means) is skipped by the unwind loop,
 which then runs to its end: nothing stays behind -/
-example : (unwind 9 { stack := [1, 2, 3, 4], popCount := 3 }
-    [{ sp := 3, handler := some (false, []), mark := false, ret := [] }, { sp := 1, handler := none, mark := false, ret := [] }]) =
-    .fail handlerTypeError { stack := [], frames := [], popCount := 1 } := rfl
+example : ((unwind 9 { stack := [1, 2, 3, 4], popCount := 3 }
+    [{ sp := 3, handler := some (false, []), mark := false, ret := [] }, { sp := 1, handler := none, mark := false, ret := [] }]) matches
+    .fail 2989 { stack := [], frames := [], popCount := 1, .. }) = true := by decide
 
 /-! ## the build -/
 
